@@ -748,7 +748,7 @@ func init() {
 	}
 
 	c04 := &Component{Name: "mapper_c04", Exec: exec,
-		Rule: "ordered glob mode. Exhaustive: every ordered list of 1..K rules (K=2 quick, K=2 plus all 3-rule lists thorough) with patterns of length <=3 over {a,b,*} x match_metric_type in {none,counter,gauge}, each looked up with every name of length <=3 over {a,b,z} x 3 metric types (117 lookups per op line); then random lists of 3..12 rules over 5 components + '*' with lengths 1..5, a third of them with some rules turned into regex rules (translated patterns or free regexes), looked up with 40 random names. Non-trivial: at least one looked-up name is matched by >=2 rules; distinct by op text."}
+		Rule: "ordered glob mode. Exhaustive: every ordered list of 1..K rules (K=2 quick, K=2 plus all 3-rule lists thorough) with patterns of length <=3 over {a,b,*} x match_metric_type in {none,counter,gauge}, each looked up with every name of length <=3 over {a,b,z} x 3 metric types (117 lookups per op line); then random lists of 3..12 rules over 5 components + '*' with lengths 1..5, a third of them with some rules turned into regex rules (translated patterns or free regexes), looked up with 40 random names; half of these histories give the mapper object a past or a future (another configuration loaded before, or a reload to a glob-less configuration afterwards), since the property speaks about the configuration in force. Non-trivial: at least one looked-up name is matched by >=2 rules; distinct by op text."}
 	c04.Gen = func(r *rand.Rand, tier string, emit Emit) {
 		// corpus: the two repaired AddState defects
 		for _, rs := range [][]variant{{{"a.b.c", ""}, {"a.b", ""}}, {{"a.b", ""}, {"*.b", ""}, {"a.b", ""}}, {{"a.b", "counter"}, {"*.b", ""}, {"a.b", ""}}, {{"a.*", ""}, {"a.b", ""}}, {{"*.*", ""}, {"a.*", ""}, {"a.b", ""}}} {
@@ -804,9 +804,33 @@ func init() {
 				}
 			}
 			h := &mapperHist{kind: "none"}
+			if i%4 == 1 { // the mapper object has a past: another configuration was loaded before (glob-only, regex-only, empty)
+				prev := mkCfg(randomRules(r, r.Intn(4), comps, 3), false)
+				if r.Intn(2) == 0 {
+					for j := range prev.rules {
+						prev.rules[j].match = toRegex(prev.rules[j].match)
+						prev.rules[j].matchType = sp("regex")
+					}
+				}
+				h.load(prev)
+				h.get(0, randomName(r, ncomps, 3))
+				tag += "_after_reload"
+			}
 			h.load(cfg)
 			for k := 0; k < 40; k++ {
 				h.get(r.Intn(3), randomName(r, ncomps, 5))
+			}
+			if i%4 == 2 { // ... and a future: reload to a configuration without glob rules, then the same kind of lookups
+				next := mkCfg(randomRules(r, r.Intn(3), comps, 3), false)
+				for j := range next.rules {
+					next.rules[j].match = toRegex(next.rules[j].match)
+					next.rules[j].matchType = sp("regex")
+				}
+				h.load(next)
+				for k := 0; k < 20; k++ {
+					h.get(r.Intn(3), randomName(r, ncomps, 4))
+				}
+				tag += "_then_reload"
 			}
 			emit(h.op(), true, tag)
 		}
